@@ -23,13 +23,29 @@ THEOREMS = [
     "C15_rebuild_repaired",
     "C15_rebuild_partial",
     "C15_rebuild_pinned_witness",
+    "C15_live_inv",
+    "C15_read_ok",
+    "C15_io_user_spec",
+    "C15_edit_refused_noop",
+    "C15_setMapB_refused_noop",
+    "C15_put_spec",
+    "C15_getter_hide_accepted",
+    "C15_live_hide",
+    "C15_at_any_moment_live",
 ]
 RULE = (
     "seeded random editing histories of a real Workflow (add/remove/re-add/replace children of two node "
     "kinds, a parentless neighbour, connect by method/assignment/through the workflow panel, disconnect, "
     "inputs_map/outputs_map assignments that rename, expose connected, hide open, repeat names, carry None "
     "values, unknown keys, names colliding with canonical keys, dict and bidict form, value assignment through "
-    "wf.inputs/wf.outputs, wf(**kwargs)); plus the exhaustive family of all maps over three keys x five targets; "
+    "wf.inputs/wf.outputs, wf(**kwargs)); IN-PLACE EDITS OF THE LIVE MAP OBJECTS returned by the inputs_map/"
+    "outputs_map getters (item set with a name / None / a clashing name, del, pop, pop with default, update, "
+    "forceput, inverse[name]=key, del inverse[name], clear, popitem, setdefault; through the getter each time or on "
+    "a reference held across several edits, with panel accesses in between; on a stored None), edits of detached "
+    "objects (the dict/bidict the user assigned, the live map that was replaced, the live map of a second workflow "
+    "that was given the same object), the same object assigned to both sides, maps given to the constructor, a "
+    "pickle round trip of the workflow, keys of channels that only appear later; plus the exhaustive family of all "
+    "maps over three keys x five targets and the family of all pairs of live edits x start maps x getter/held; "
     "after EVERY op: ordered keys of wf.inputs/wf.outputs with the `is`-identity of each entry, the stored maps, "
     "all channel values, the run's return dict; non-trivial = the panels changed at least 3 times and at least "
     "one map was accepted; distinct by canonical op list"
@@ -37,7 +53,8 @@ RULE = (
 TRUSTED = [
     "model WfIO.buildFrom/setMap/assignVia/runReturn transcribe Workflow._build_io, the map setters with "
     "_sanitize_map/_deduplicate_nones, IO.__setattr__ and Node._outputs_to_run_return (validated only on the "
-    "explored histories)",
+    "explored histories); WfIO.bput/bforce/binvPut/bupdate/normalize transcribe bidict 0.23.1 (_dedup/_write/"
+    "_update, MutableBidict) and the getter's _deduplicate_nones on the live object",
     "`io[key] = channel` for a key already present calls existing.connect(channel) between two channels of the "
     "same side, which raises TypeError by C12's conjugate typing: modelled as 'panel access raises'",
     "what a run does to channel values (C01) and replace_child's rewiring (C14) are observed on the "
@@ -46,6 +63,13 @@ TRUSTED = [
 ]
 ASSUMPTIONS = [
     "channel identity = Python object identity",
+    "the maps hold str or None values only (the documented contract dict[str, str | None]); what the user means by "
+    "an in-place edit is what bidict documents for it (item assignment overwrites the key and refuses a value that "
+    "sits under another key; inverse[name] = key moves the name; forceput drops whatever is in the way; update is "
+    "all-or-nothing)",
+    "a second raw None written through a reference HELD across the first (no getter call or panel access in "
+    "between), or two None values in one update call, may be refused by the bidict (raw None is one value); the "
+    "oracle accepts either outcome there and demands only that a refused edit leaves the map as it was",
     "a state in which two visible channels would get the same key (mapped name equal to the canonical key of "
     "another visible channel) admits no panel at all; the property is read as: whenever the panel is returned it "
     "is exactly the stated set, and in such a state the access must raise rather than return something else",
@@ -57,6 +81,10 @@ PYHINT = {"int": int, "str": str, "bool": bool}
 DEFAULTS = {"F": {"a": "d", "b": "d", "c": "d"}, "T": {"i": 0, "s": "x", "u": None, "b": True}}
 LABELS = ["n0", "n1", "n2", "n3"]
 SIDES = {"in": 0, "out": 1}
+ATTR = {"in": "inputs_map", "out": "outputs_map"}
+# canonical keys that may name a channel now or only later (or never: T-only labels on an F node)
+FUTURE = {"in": [f"{lab}__{c}" for lab in LABELS for c in ("a", "b", "c", "i", "u")],
+          "out": [f"{lab}__{c}" for lab in LABELS for c in ("o", "oi", "ou")]}
 
 
 # ----------------------------------------------------------------------------- static layout
@@ -156,6 +184,93 @@ def _spec(children, inst, connected, umap, side):
     return out
 
 
+# ----------------------------------------------------------------------------- what an in-place edit means
+
+
+def _eff_form(m, form):
+    """the object actually assigned: a bidict only if the entries can be one"""
+    if m is None:
+        return "none"
+    if form in ("bidict", "sharedb"):
+        vals = list(m.values())
+        if len(set(vals)) == len(vals):
+            return "bidict"
+    return "dict"
+
+
+def _ref_edit(u, e, pend):
+    """
+    What the user asks for with one in-place edit of a live map, written from the documentation of dict /
+    bidict item access (NOT from the Lean model).  u: key -> str|None (None = hidden), not modified;
+    pend: keys that received a None since the last getter call / panel access (raw None is ONE value for the
+    bidict until then).  Returns (verdict, u_after_if_accepted):
+      accept  the edit must go through        refuse  it maps two channels to one name: must raise
+      either  a second un-cleaned None: the bidict may refuse it
+      free    no demand (KeyError-like: nothing to delete), the map must stay as it is
+    """
+    kind = e[0]
+    u2 = dict(u)
+
+    def taken(cur, v, k):
+        return isinstance(v, str) and any(k2 != k and v2 == v for k2, v2 in cur.items())
+
+    def none_pending(cur, k, pending):
+        return any(k2 != k and k2 in cur and cur[k2] is None for k2 in pending)
+
+    if kind in ("set", "setdefault"):
+        k, v = e[1], e[2]
+        if kind == "setdefault" and k in u:
+            return "accept", u2
+        if taken(u, v, k):
+            return "refuse", u2
+        u2[k] = v
+        return ("either" if v is None and none_pending(u, k, pend) else "accept"), u2
+    if kind in ("del", "pop"):
+        if e[1] in u:
+            del u2[e[1]]
+            return "accept", u2
+        return "free", u2
+    if kind == "popd":
+        u2.pop(e[1], None)
+        return "accept", u2
+    if kind == "upd":
+        cur, pending, verdict = dict(u), set(pend), "accept"
+        for k, v in e[1].items():
+            if taken(cur, v, k):
+                return "refuse", u2
+            if v is None and none_pending(cur, k, pending):
+                verdict = "either"
+            cur[k] = v
+            if v is None:
+                pending.add(k)
+        return verdict, cur
+    if kind == "force":
+        k, v = e[1], e[2]
+        for k2 in [k2 for k2, v2 in u.items() if k2 != k and v2 == v and isinstance(v, str)]:
+            del u2[k2]
+        u2[k] = v
+        return "accept", u2
+    if kind == "invset":
+        v, k = e[1], e[2]
+        if k in u:
+            return ("accept" if u[k] == v else "refuse"), u2
+        for k2 in [k2 for k2, v2 in u.items() if v2 == v]:
+            del u2[k2]
+        u2[k] = v
+        return "accept", u2
+    if kind == "invdel":
+        holders = [k2 for k2, v2 in u.items() if v2 == e[1]]
+        if holders:
+            del u2[holders[0]]
+            return "accept", u2
+        return "free", u2
+    if kind == "clear":
+        return "accept", {}
+    if kind == "popitem":
+        return ("popitem" if u else "free"), u2
+    raise ValueError(kind)
+
+
 # ----------------------------------------------------------------------------- generation
 
 
@@ -169,6 +284,7 @@ class _Sim:
         self.label = {}  # tag -> current label
         self.conn = {}  # id -> set
         self.umap = {"in": None, "out": None}
+        self.foreign = {"in": set(), "out": set()}  # detached map objects that exist by now
         self.n = 0
 
     def create(self, kind, label):
@@ -221,7 +337,9 @@ def _gen_map(rng, sim, side):
         scoped = ["n0__a"]
     m = {}
     for _ in range(rng.choice([1, 1, 2, 2, 3, 4])):
-        key = rng.choice(scoped) if rng.random() < 0.88 else rng.choice(["zz__a", "n0__zz", "n9__o"])
+        kq = rng.random()
+        key = rng.choice(scoped) if kq < 0.78 else rng.choice(FUTURE[side]) if kq < 0.93 \
+            else rng.choice(["zz__a", "n0__zz", "n9__o"])
         q = rng.random()
         if q < 0.55:
             val = rng.choice(NAMES)
@@ -231,6 +349,90 @@ def _gen_map(rng, sim, side):
             val = rng.choice(scoped)  # a name that is some channel's canonical key
         m[key] = val
     return m
+
+
+def _gen_key(rng, sim, side):
+    scoped = [f"{sim.label[t]}__{l}" for t, l, _c in sim.chans(side, sim.child_tags())]
+    inmap = list(sim.umap[side] or {})
+    q = rng.random()
+    if scoped and q < 0.55:
+        return rng.choice(scoped)
+    if inmap and q < 0.80:
+        return rng.choice(inmap)
+    if q < 0.94:
+        return rng.choice(FUTURE[side])
+    return rng.choice(["zz__a", "nokey"])
+
+
+def _gen_val(rng, sim, side, none=0.4):
+    q = rng.random()
+    if q < none:
+        return None
+    if q < 0.9:
+        return rng.choice(NAMES)
+    scoped = [f"{sim.label[t]}__{l}" for t, l, _c in sim.chans(side, sim.child_tags())]
+    return rng.choice(scoped) if scoped else rng.choice(NAMES)
+
+
+def _gen_edit(rng, sim, side):
+    q = rng.random()
+    key = _gen_key(rng, sim, side)
+    used = [v for v in (sim.umap[side] or {}).values() if isinstance(v, str)]
+    name = rng.choice(used) if used and rng.random() < 0.5 else rng.choice(NAMES)
+    if q < 0.40:
+        return ["set", key, _gen_val(rng, sim, side, 0.5)]
+    if q < 0.50:
+        return [rng.choice(["del", "pop"]), key]
+    if q < 0.55:
+        return ["popd", key]
+    if q < 0.68:
+        d = {}
+        for _ in range(rng.choice([0, 1, 2, 2, 3])):
+            d[_gen_key(rng, sim, side)] = _gen_val(rng, sim, side, 0.45)
+        return ["upd", d]
+    if q < 0.74:
+        return ["force", key, name]
+    if q < 0.82:
+        return ["invset", name, key]
+    if q < 0.86:
+        return ["invdel", name]
+    if q < 0.88:
+        return ["clear"]
+    if q < 0.94:
+        return ["setdefault", key, _gen_val(rng, sim, side, 0.5)]
+    return ["access"]
+
+
+def _gen_batch(rng, sim, side, mode):
+    """a batch of edits; the generator's own bookkeeping follows what the unchanged library does"""
+    edits = []
+    u = sim.umap[side]
+    pend = set()
+    for _ in range(rng.choice([1, 1, 1, 2, 2, 3, 4])):
+        e = _gen_edit(rng, sim, side)
+        edits.append(e)
+        if u is None:
+            break  # the first edit of a stored None raises
+        if e[0] == "access":
+            pend = set()
+            continue
+        if mode == "getter":
+            pend = set()
+        verdict, u2 = _ref_edit(u, e, pend)
+        if verdict in ("refuse", "free", "either"):
+            break
+        u = u2
+        if e[0] in ("set", "setdefault") and e[2] is None:
+            pend.add(e[1])
+        if e[0] == "upd":
+            pend |= {k for k, v in e[1].items() if v is None}
+    else:
+        if u and rng.random() < 0.08:
+            edits.append(["popitem"])
+            u = dict(list(u.items())[:-1])  # approximate (insertion order)
+    if u is not None:
+        sim.umap[side] = u
+    return edits
 
 
 def _type_safe(sim, out_tag, out_lab, in_tag, in_lab):
@@ -256,6 +458,19 @@ def _random_case(rng, tier):
         if label not in [c[0] for c in sim.children]:
             sim.children.append((label, tag))
 
+    if rng.random() < 0.15:
+        # maps given to the constructor, naming channels that do not exist yet
+        maps = []
+        for side in ("in", "out"):
+            m = None
+            if rng.random() < 0.75:
+                m, names = {}, list(NAMES)
+                rng.shuffle(names)
+                for _ in range(rng.choice([1, 2, 3])):
+                    m[rng.choice(FUTURE[side])] = names.pop() if names and rng.random() < 0.6 else None
+            maps.append(m)
+            sim.umap[side] = m
+        ops.append(["ctor", maps[0], maps[1]])
     if rng.random() < 0.3:
         tag = sim.create("F", "ext")
         ops.append(["ext", "F", "ext", tag])
@@ -265,24 +480,24 @@ def _random_case(rng, tier):
     for _ in range(length):
         r = rng.random()
         ct = sim.child_tags()
-        if r < 0.10:
+        if r < 0.09:
             if len(sim.children) < 4 or rng.random() < 0.2:
                 add()
-        elif r < 0.15:
+        elif r < 0.13:
             if sim.children and rng.random() < 0.9:
                 label, tag = rng.choice(sim.children)
                 sim.drop(tag)
             else:
                 label = rng.choice(LABELS)
             ops.append(["remove", label])
-        elif r < 0.18:
+        elif r < 0.16:
             loose = [t for t in sim.inst if t not in ct]
             if loose:
                 tag = rng.choice(loose)
                 ops.append(["readd", tag])
                 if sim.label[tag] not in [c[0] for c in sim.children]:
                     sim.children.append((sim.label[tag], tag))
-        elif r < 0.38:
+        elif r < 0.33:
             outs, ins = sim.chans("out"), sim.chans("in")
             wild = rng.random() < 0.1
             for _try in range(8):
@@ -319,7 +534,7 @@ def _random_case(rng, tier):
                     ops.append(["connect", how, f"{it}.{il}", f"{ot}.{ol}"])
                     sim.conn[ic].add(oc)
                     sim.conn[oc].add(ic)
-        elif r < 0.44:
+        elif r < 0.38:
             pairs = [(a, b) for a, bs in sim.conn.items() for b in bs]
             name = {c: f"{t}.{l}" for s in ("in", "out") for t, l, c in sim.chans(s)}
             if pairs and rng.random() < 0.85:
@@ -332,31 +547,78 @@ def _random_case(rng, tier):
                 ops.append(["disconnect", name[a], name[b]])
                 sim.conn[a].discard(b)
                 sim.conn[b].discard(a)
-        elif r < 0.47:
+        elif r < 0.41:
             allc = sim.chans("in") + sim.chans("out")
             t, l, c = rng.choice(allc)
             for o in sim.conn[c]:
                 sim.conn[o].discard(c)
             sim.conn[c] = set()
             ops.append(["disconnectall", f"{t}.{l}"])
-        elif r < 0.70:
+        elif r < 0.55:
             side = rng.choice(["in", "in", "out"])
             m = _gen_map(rng, sim, side)
             form = "dict"
             if m is not None:
-                vals = list(m.values())
-                if len(set(vals)) == len(vals) and rng.random() < 0.15:
-                    form = "bidict"
+                form = rng.choice(["dict"] * 6 + ["bidict", "bidict", "shared", "sharedb"])
             ops.append(["map", side, m, form])
+            if sim.umap[side] is not None:
+                sim.foreign[side].add("stale")
+            if m is not None:
+                sim.foreign[side].add("orig")
+                if form in ("shared", "sharedb"):
+                    sim.foreign[side].add("other")
             names = [v for v in (m or {}).values() if v is not None]
             if len(set(names)) == len(names):
                 sim.umap[side] = m
-        elif r < 0.86:
+        elif r < 0.57:
+            # one object assigned to both sides
+            side = rng.choice(["in", "out"])
+            m = _gen_map(rng, sim, side) or {}
+            ops.append(["mapboth", m, rng.choice(["dict", "dict", "bidict"])])
+            for sd in ("in", "out"):
+                sim.foreign[sd].add("orig")
+                if sim.umap[sd] is not None:
+                    sim.foreign[sd].add("stale")
+            names = [v for v in m.values() if v is not None]
+            if len(set(names)) == len(names):
+                sim.umap["in"] = sim.umap["out"] = dict(m)
+        elif r < 0.72:
+            # in-place edits of the live map
+            side = rng.choice(["in", "in", "out"])
+            mode = rng.choice(["getter", "getter", "held", "held", "held"])
+            if sim.umap[side] is None and rng.random() < 0.9:
+                # an edit of a stored None only raises: mostly give the workflow a map first
+                m = _gen_map(rng, sim, side)
+                m = {} if m is None or len(set(m.values())) != len(m) else m
+                ops.append(["map", side, m, rng.choice(["dict", "dict", "bidict"])])
+                sim.foreign[side].add("orig")
+                sim.umap[side] = m
+            ops.append(["medit", side, mode, _gen_batch(rng, sim, side, mode)])
+        elif r < 0.75:
+            # edits of objects that are NOT the workflow's map (any more)
+            side = rng.choice(["in", "out"])
+            if not sim.foreign[side]:
+                side = "in" if side == "out" else "out"
+            if not sim.foreign[side]:
+                continue
+            keep = sim.umap[side]
+            edits = [rng.choice([["clear"], ["set", _gen_key(rng, sim, side), None],
+                                 ["set", _gen_key(rng, sim, side), rng.choice(NAMES)],
+                                 ["upd", {k: None for k in FUTURE[side][:3]}], _gen_edit(rng, sim, side)])
+                     for _ in range(rng.choice([1, 2, 3]))]
+            ops.append(["medit", side, rng.choice(sorted(sim.foreign[side])), edits])
+            sim.umap[side] = keep
+        elif r < 0.77:
+            ops.append(["reload"])
+            for sd in ("in", "out"):
+                if sim.umap[sd] is not None:
+                    sim.foreign[sd].add("stale")
+        elif r < 0.88:
             side = "in" if rng.random() < 0.8 else "out"
             keys = sim.keys(side)
             key = rng.choice(keys) if keys and rng.random() < 0.85 else rng.choice(["qq", "n0__a", "n1__o", "x", "y"])
             ops.append(["assign", side, key, rng.choice(VALUES)])
-        elif r < 0.97:
+        elif r < 0.975:
             keys = sim.keys("in")
             kw = {}
             for _ in range(rng.choice([0, 0, 1, 1, 2])):
@@ -404,14 +666,41 @@ def _exhaustive_family():
                 yield {"ops": ops}
 
 
+LIVE_STARTS = [None, {}, {"n0__a": "x"}, {"n0__a": None}, {"n0__a": "x", "n1__a": None}]
+LIVE_EDITS = [
+    ["set", "n0__a", None], ["set", "n0__b", None], ["set", "n1__a", "y"], ["set", "n0__b", "x"],
+    ["set", "n0__a", "n0__b"], ["del", "n0__a"], ["popd", "n0__b"], ["upd", {"n0__a": None, "n0__b": None}],
+    ["upd", {"n0__b": "x", "n0__c": "y"}], ["force", "n0__b", "x"], ["invset", "x", "n0__b"], ["invdel", "x"],
+    ["clear"], ["setdefault", "n0__b", None], ["access"], ["popitem"],
+]
+
+
+def _live_family():
+    """two term nodes with n0.o -> n1.a; every start map x every ordered pair of in-place edits of the live
+    inputs map x {through the getter each time, on a held reference}; then an assignment and a run.
+    (`popitem` only as the last edit: which item goes is the bidict's business.)"""
+    for start in LIVE_STARTS:
+        for e1 in LIVE_EDITS[:-1]:
+            for e2 in LIVE_EDITS:
+                for mode in ("getter", "held"):
+                    yield {"ops": [["add", "F", "n0", "k0"], ["add", "F", "n1", "k1"],
+                                   ["connect", "assign", "k1.a", "k0.o"], ["map", "in", start, "dict"],
+                                   ["medit", "in", mode, [e1, e2]], ["assign", "in", "n0__b", "v"], ["run", {}]]}
+
+
 def gen_cases(rng, tier):
     fam = list(_exhaustive_family())
+    live = list(_live_family())
     if tier == "quick":
-        for c in rng.sample(fam, 150):
+        for c in rng.sample(fam, 120):
+            yield c
+        for c in rng.sample(live, 200):
             yield c
         n = 700
     else:
         for c in fam:
+            yield c
+        for c in live:
             yield c
         n = 12000
     for _ in range(n):
@@ -439,6 +728,31 @@ def corpus():
                    ["assign", "in", "n1__b", True], ["replace", "n0", "F", "k2"], ["remove", "n1"],
                    ["readd", "k1"], ["assign", "out", "n1__oi", 4], ["run", {"n1__s": "q"}]]}
 
+
+    # in-place edits of the live maps: hide through the getter (twice), on a held reference (second raw None is
+    # refused by the bidict until the next access), rename via the inverse, rolled-back update, edit of a stored None
+    yield {"ops": [["add", "F", "n0", "k0"], ["add", "F", "n1", "k1"], ["add", "F", "n2", "k2"], ["add", "F", "n3", "k3"],
+                   ["connect", "assign", "k1.a", "k0.o"],
+                   ["map", "in", {"n0__a": "x", "n2__a": None}, "dict"],
+                   ["map", "out", {"n1__o": "y", "n0__o": "mid"}, "dict"],
+                   ["medit", "out", "getter", [["set", "n2__o", None]]], ["run", {"x": 1}],
+                   ["medit", "in", "getter", [["del", "n2__a"], ["set", "n3__a", None], ["set", "n2__a", "z"]]],
+                   ["medit", "in", "held", [["set", "n0__b", None], ["set", "n0__c", None]]],
+                   ["medit", "in", "held", [["set", "n0__c", None], ["access"], ["set", "n1__b", None],
+                                            ["invset", "x", "n1__c"], ["upd", {"n0__a": "k", "n0__b": "x"}]]],
+                   ["map", "out", None, "dict"], ["medit", "out", "getter", [["set", "n0__o", None]]],
+                   ["medit", "out", "held", [["clear"]]], ["run", {}]]}
+    # aliasing: the object the user assigned, the replaced live map, a second workflow given the same object,
+    # one object on both sides, constructor maps for channels that appear later, a pickle round trip
+    yield {"ops": [["ctor", {"n0__a": None, "n1__b": "x"}, {"n0__o": "res"}], ["add", "F", "n0", "k0"],
+                   ["add", "F", "n1", "k1"], ["map", "in", {"n0__a": "x", "n0__b": None}, "sharedb"],
+                   ["medit", "in", "other", [["clear"]]], ["medit", "in", "orig", [["set", "n0__c", None]]],
+                   ["medit", "in", "stale", [["set", "n1__a", None]]],
+                   ["mapboth", {"n0__a": "q", "n0__o": None}, "bidict"],
+                   ["medit", "in", "getter", [["set", "n1__o", None], ["set", "n1__a", None]]],
+                   ["medit", "out", "held", [["del", "n0__o"]]], ["reload"],
+                   ["medit", "out", "getter", [["set", "n1__o", None]]],
+                   ["medit", "in", "stale", [["clear"]]], ["run", {"q": 3}]]}
 
     # KF-C15-1: a connected channel exposed through the map, then replace_child. README_REPLACE is the
     # README's own example (raises RecursionError; the state it ends in depends on the stack depth),
@@ -483,9 +797,44 @@ def _fmt(st):
             f"vals:{','.join(f'{i}={v}' for i, v in enumerate(st['vals']))}")
 
 
+MAPEXC = {"ValueDuplicationError": "dupErr", "KeyAndValueDuplicationError": "kvDupErr", "KeyError": "keyErr",
+          "TypeError": "typeErr", "AttributeError": "refused"}
+
+
+def _apply_edit(m, e):
+    """one in-place edit of a map object, the way a user writes it"""
+    kind = e[0]
+    if kind == "set":
+        m[e[1]] = e[2]
+    elif kind == "del":
+        del m[e[1]]
+    elif kind == "pop":
+        m.pop(e[1])
+    elif kind == "popd":
+        m.pop(e[1], None)
+    elif kind == "upd":
+        m.update(dict(e[1]))
+    elif kind == "force":
+        m.forceput(e[1], e[2])
+    elif kind == "invset":
+        m.inverse[e[1]] = e[2]
+    elif kind == "invdel":
+        del m.inverse[e[1]]
+    elif kind == "clear":
+        m.clear()
+    elif kind == "popitem":
+        m.popitem()
+    elif kind == "setdefault":
+        m.setdefault(e[1], e[2])
+    else:
+        raise AssertionError(kind)
+
+
 def run_impl(case):
     if "raw" in case:
         return {"obs": ["bad-op"] * len(case["raw"]), "states": [], "stats": {"raw": 1}}
+    import pickle
+
     from bidict import bidict
     from pyiron_workflow import Workflow
 
@@ -493,7 +842,20 @@ def run_impl(case):
 
     nodes.reset()
     inst = _static(case)
-    wf = Workflow("w", autoload=None)
+    ctor = case["ops"][0] if case["ops"] and case["ops"][0][0] == "ctor" else None
+    ctor_exc = None
+    if ctor is not None:
+        try:
+            wf = Workflow("w", autoload=None, inputs_map=None if ctor[1] is None else dict(ctor[1]),
+                          outputs_map=None if ctor[2] is None else dict(ctor[2]))
+        except Exception as e:  # noqa: BLE001
+            ctor_exc = type(e).__name__
+            wf = Workflow("w", autoload=None)
+    else:
+        wf = Workflow("w", autoload=None)
+    other = []  # a second workflow, made when first needed
+    foreign = {"in": {}, "out": {}}  # map objects that are not (any more) the workflow's stored maps
+    graveyard = []  # replaced objects are kept alive so that id() stays unambiguous
     node = {}  # tag -> node object
     obj = []  # id -> channel object
     index = {}  # id(channel object) -> id
@@ -544,6 +906,8 @@ def run_impl(case):
                 out.append((k, v))
             elif isinstance(v, tuple) and len(v) == 2 and v[0] is None and str(v[1]).endswith(" disabled"):
                 out.append((k, "-" + str(v[1])[: -len(" disabled")]))
+            elif v is None:
+                out.append((k, "!None"))  # a raw None the getter handed out
             else:
                 out.append((k, f"?{v!r}".replace(" ", "")))
         return out
@@ -621,19 +985,85 @@ def run_impl(case):
                     res = "skip"
                 else:
                     a.disconnect_all()
+            elif what == "ctor":
+                if op is not case["ops"][0]:
+                    res = "skip"
+                elif ctor_exc:
+                    res = "exc:" + ctor_exc
             elif what == "map":
-                m = op[2]
+                side, m, form = op[1], op[2], op[3]
                 if m is not None:
-                    m = dict(m)
-                    if op[3] == "bidict":
+                    m = bidict(m) if _eff_form(m, form) == "bidict" else dict(m)
+                foreign[side]["stale"] = getattr(wf, ATTR[side])
+                foreign[side]["orig"] = m
+                if form in ("shared", "sharedb") and m is not None:
+                    # the very same object is given to a second workflow first
+                    if not other:
+                        other.append(Workflow("w2", autoload=None))
+                    try:
+                        setattr(other[0], ATTR[side], m)
+                        foreign[side]["other"] = getattr(other[0], ATTR[side])
+                    except Exception:  # noqa: BLE001
+                        pass
+                setattr(wf, ATTR[side], m)
+            elif what == "mapboth":
+                m = bidict(op[1]) if _eff_form(op[1], op[2]) == "bidict" else dict(op[1])
+                for side in ("in", "out"):
+                    foreign[side]["stale"] = getattr(wf, ATTR[side])
+                    foreign[side]["orig"] = m
+                wf.inputs_map = m
+                wf.outputs_map = m
+            elif what == "medit":
+                side, mode, edits = op[1], op[2], op[3]
+                if mode in ("getter", "held"):
+                    held = getattr(wf, ATTR[side])  # m = wf.inputs_map
+                    for i, e in enumerate(edits):
+                        if e[0] == "access":
+                            try:
+                                _ = wf.inputs if side == "in" else wf.outputs
+                            except Exception:  # noqa: BLE001  (a key clash; judged at the snapshot)
+                                pass
+                            continue
                         try:
-                            m = bidict(m)
-                        except Exception:  # noqa: BLE001  (not expressible as a bidict: use the dict)
-                            m = dict(op[2])
-                if op[1] == "in":
-                    wf.inputs_map = m
+                            _apply_edit(getattr(wf, ATTR[side]) if mode == "getter" else held, e)
+                        except Exception as ex:  # noqa: BLE001
+                            name = type(ex).__name__
+                            res = f"{MAPEXC.get(name, 'exc:' + name)}@{i}"
+                            break
                 else:
-                    wf.outputs_map = m
+                    target = foreign[side].get(mode)
+                    if target is None or target is getattr(wf, "_" + ATTR[side]):
+                        res = "skip"
+                    else:
+                        for e in edits:
+                            try:
+                                if e[0] != "access":
+                                    _apply_edit(target, e)
+                            except Exception:  # noqa: BLE001  (whatever that object says; not the workflow's)
+                                pass
+            elif what == "reload":
+                # a pickle round trip; only when no child is wired to a node outside (storage refuses that)
+                mine = {id(ch) for n in wf.children.values() for ch in [*n.inputs, *n.outputs]}
+                if any(id(c) not in mine for n in wf.children.values() for ch in [*n.inputs, *n.outputs]
+                       for c in ch.connections):
+                    res = "skip"
+                else:
+                    new = pickle.loads(pickle.dumps(wf))
+                    for side in ("in", "out"):
+                        foreign[side]["stale"] = getattr(wf, ATTR[side])
+                    for t, n in list(node.items()):
+                        if n.parent is wf:
+                            nn = new.children[n.label]
+                            kind = inst[t]["kind"]
+                            chs = [nn.inputs[l] for l in KINDS[kind][0]] + [nn.outputs[l] for l in KINDS[kind][1]]
+                            for j, ch in enumerate(chs):
+                                obj[inst[t]["base"] + j] = ch
+                            node[t] = nn
+                            graveyard.append(n)
+                    graveyard.append(wf)
+                    wf = new
+                    index.clear()
+                    index.update({id(ch): i for i, ch in enumerate(obj)})
             elif what == "assign":
                 setattr(wf.inputs if op[1] == "in" else wf.outputs, op[2], _tup(op[3]))
             elif what == "run":
@@ -672,7 +1102,7 @@ def run_impl(case):
         stats[f"op:{k}"] = stats.get(f"op:{k}", 0) + 1
     changed, prev, accepted = 0, None, 0
     for st in states:
-        r = st["res"].split(":")[0]
+        r = st["res"].split(":")[0].split("@")[0]
         stats[f"res:{st['op'][0]}:{r}"] = stats.get(f"res:{st['op'][0]}:{r}", 0) + 1
         cur = (str(st["panel"]["in"]), str(st["panel"]["out"]))
         if prev is not None and cur != prev:
@@ -680,6 +1110,11 @@ def run_impl(case):
         prev = cur
         if st["op"][0] == "map" and st["res"] == "ok" and st["op"][2]:
             accepted += 1
+        if st["op"][0] == "medit" and st["res"] != "skip":
+            accepted += 1
+            stats[f"medit:{st['op'][2]}"] = stats.get(f"medit:{st['op'][2]}", 0) + 1
+            for e in st["op"][3]:
+                stats[f"edit:{e[0]}"] = stats.get(f"edit:{e[0]}", 0) + 1
         for s in ("in", "out"):
             if isinstance(st["panel"][s], str):
                 stats["panel-raises"] = stats.get("panel-raises", 0) + 1
@@ -711,11 +1146,30 @@ def _init_lines(inst, tag):
     return lines
 
 
-def _map_line(side, m):
-    word = "imap" if side == "in" else "omap"
+def _map_line(side, m, form="dict"):
+    word = {"in": "imap", "out": "omap", "both": "bothmap"}[side]
     if m is None:
         return f"{word} none"
-    return f"{word} dict " + " ".join(f"{k}>{'-' if v is None else v}" for k, v in m.items())
+    return f"{word} {_eff_form(m, form)} " + " ".join(f"{k}>{'-' if v is None else v}" for k, v in m.items())
+
+
+def _tok_edit(e):
+    kind = e[0]
+
+    def v(x):
+        return "-" if x is None else x
+
+    if kind in ("set", "setdefault", "force"):
+        return f"{kind}:{e[1]}>{v(e[2])}"
+    if kind in ("del", "pop", "popd"):
+        return f"{kind}:{e[1]}"
+    if kind == "upd":
+        return "upd:" + ",".join(f"{a}>{v(b)}" for a, b in e[1].items())
+    if kind == "invset":
+        return f"invset:{v(e[1])}>{e[2]}"
+    if kind == "invdel":
+        return f"invdel:{v(e[1])}"
+    return kind  # clear, popitem, access
 
 
 def model_input(case, impl=None):
@@ -746,8 +1200,20 @@ def model_input(case, impl=None):
             lines.append(f"disconnect {_ref(inst, op[1])[0]} {_ref(inst, op[2])[0]}")
         elif what == "disconnectall":
             lines.append(f"disconnectall {_ref(inst, op[1])[0]}")
+        elif what == "ctor":
+            lines.append("q " + _map_line("in", op[1]))
+            lines.append(_map_line("out", op[2]))
         elif what == "map":
-            lines.append(_map_line(op[1], op[2]))
+            lines.append(_map_line(op[1], op[2], op[3]))
+        elif what == "mapboth":
+            lines.append(_map_line("both", op[1], op[2]))
+        elif what == "medit":
+            if op[2] in ("getter", "held"):
+                lines.append(" ".join(["medit", op[1], op[2]] + [_tok_edit(e) for e in op[3]]))
+            else:
+                lines.append("noop")  # the edited object is not the workflow's map
+        elif what == "reload":
+            lines.append("noop")  # a pickled and unpickled copy is the same workflow
         elif what == "assign":
             lines.append(f"assign {op[1]} {op[2]} {tok(op[3])}")
         elif what == "run":
@@ -804,6 +1270,13 @@ def _names(m):
     return [v for v in (m or {}).values() if v is not None]
 
 
+def _view(pairs):
+    """the observed map as the user reads it: name, or None for the disabled marker / a raw None"""
+    if pairs is None:
+        return None
+    return {k: (None if v.startswith("-") or v == "!None" else v) for k, v in pairs}
+
+
 def oracle(case, r):
     if "raw" in case:
         return []
@@ -821,19 +1294,71 @@ def oracle(case, r):
         children = [(lab, tag) for lab, tag in st["children"] if tag in inst]
 
         # ---- the renaming maps: one-to-one; duplicates rejected with the old map kept
-        if op[0] == "map":
-            side, m = op[1], op[2]
-            dup = len(set(_names(m))) != len(_names(m))
+        if op[0] in ("map", "mapboth", "ctor"):
+            assigned = {"map": lambda: [(op[1], op[2])], "mapboth": lambda: [("in", op[1]), ("out", op[1])],
+                        "ctor": lambda: [("in", op[1]), ("out", op[2])]}[op[0]]()
+            dup = any(len(set(_names(m))) != len(_names(m)) for _s, m in assigned)
             if dup:
                 if res == "ok":
-                    fails.append(_f("dup-accepted", k, op, f"two keys mapped to one name were accepted: {m}"))
+                    fails.append(_f("dup-accepted", k, op, f"two keys mapped to one name were accepted: {assigned}"))
                 elif prev is not None and st["maps"] != prev["maps"]:
                     fails.append(_f("rejected-map-changed", k, op, f"{prev['maps']} -> {st['maps']}"))
             else:
                 if res != "ok":
-                    fails.append(_f("valid-map-rejected", k, op, f"{m}: {res}"))
+                    fails.append(_f("valid-map-rejected", k, op, f"{assigned}: {res}"))
                 else:
-                    umap[side] = m
+                    for side, m in assigned:
+                        umap[side] = None if m is None else dict(m)
+
+        # ---- in-place edits of the live map: what the user asked for, edit by edit
+        if op[0] == "medit" and op[2] in ("getter", "held"):
+            side, mode, edits = op[1], op[2], op[3]
+            failed_at = int(res.split("@")[1]) if "@" in res else None
+            pend, lost = set(), False
+            for i, e in enumerate(edits):
+                if failed_at is not None and i > failed_at:
+                    break
+                raised = failed_at == i
+                if e[0] == "access":
+                    pend = set()
+                    continue
+                if umap[side] is None:
+                    if not raised:
+                        fails.append(_f("edit-of-none-accepted", k, op, f"edit #{i} {e} of a map that is None: {res}"))
+                    break
+                if mode == "getter":
+                    pend = set()
+                verdict, after = _ref_edit(umap[side], e, pend)
+                if verdict == "refuse" and not raised:
+                    fails.append(_f("dup-accepted", k, op, f"edit #{i} {e} maps two channels to one name "
+                                                           f"({umap[side]}) and was accepted", edit=e[0]))
+                elif verdict == "accept" and raised:
+                    fails.append(_f("valid-edit-refused", k, op, f"edit #{i} {e} on {umap[side]}: {res}", edit=e[0]))
+                elif verdict == "popitem" and not raised:
+                    lost = True  # which item goes is the bidict's business: exactly one, the rest untouched
+                elif verdict in ("accept", "either") and not raised:
+                    umap[side] = after
+                    if e[0] in ("set", "setdefault") and e[2] is None:
+                        pend.add(e[1])
+                    if e[0] == "upd":
+                        pend |= {kk for kk, vv in e[1].items() if vv is None}
+            if lost and st["maps"][side] is not None:
+                seen = _view(st["maps"][side])
+                gone = [kk for kk in umap[side] if kk not in seen]
+                if len(gone) == 1 and all(seen.get(kk, 0) == vv for kk, vv in umap[side].items() if kk != gone[0]) \
+                        and set(seen) <= set(umap[side]) and edits[-1][0] == "popitem":
+                    umap[side] = seen
+                elif edits[-1][0] == "popitem":
+                    fails.append(_f("map-content", k, op, f"{side}: popitem turned {umap[side]} into {seen}", side=side))
+                else:
+                    umap[side] = seen  # edits after a popitem: not followed
+
+        # ---- the stored maps say what the user asked for (and nothing that was done to other objects)
+        for side in ("in", "out"):
+            seen = _view(st["maps"][side])
+            if seen != umap[side]:
+                fails.append(_f("map-content", k, op, f"{side}: the map reads {seen}, the user asked for "
+                                                      f"{umap[side]}", side=side))
 
         # ---- key set and identity of both panels, after every op
         expected = {}
@@ -946,3 +1471,15 @@ def shrink_candidates(case):
                 yield {"ops": ops[:i] + [["map", op[1], m, op[3]]] + ops[i + 1:]}
         if op[0] == "run" and op[1]:
             yield {"ops": ops[:i] + [["run", {}]] + ops[i + 1:]}
+        if op[0] == "medit" and len(op[3]) > 1:
+            for j in range(len(op[3])):
+                yield {"ops": ops[:i] + [[op[0], op[1], op[2], op[3][:j] + op[3][j + 1:]]] + ops[i + 1:]}
+        if op[0] == "medit":
+            for j, e in enumerate(op[3]):
+                if e[0] == "upd" and len(e[1]) > 1:
+                    for key in e[1]:
+                        d = {a: b for a, b in e[1].items() if a != key}
+                        yield {"ops": ops[:i] + [[op[0], op[1], op[2], op[3][:j] + [["upd", d]] + op[3][j + 1:]]]
+                                      + ops[i + 1:]}
+        if op[0] == "map" and op[3] != "dict":
+            yield {"ops": ops[:i] + [["map", op[1], op[2], "dict"]] + ops[i + 1:]}
